@@ -258,20 +258,23 @@ def hashRefs (g : Graph) (specs : List Spec) : List Nat :=
 /-- The `__module-<T>` tables the body of module `k` refers to.  Its import defines carry mangled names
 (`##mm…`), and `remove_unused_globals_with_prefix` deletes those that nothing in the compilation unit
 uses; a `contract/out` import that is defined under an unmangled name (see `mGlobals`) stays. -/
+def modRefsGo (defs used : List Name) (unmangled : Nat × Name × Name × Bool → Bool) :
+    List (Nat × Name × Name × Bool) → List Nat
+  | [] => []
+  | i :: rest =>
+      -- a use of a name counts for the last define of that name in the unit: an import that the
+      -- module's own define, or a later import, shadows is unused
+      let shadowed := defs.contains i.2.1 || rest.any (fun j => j.2.1 == i.2.1 && !unmangled j)
+      if unmangled i || (used.contains i.2.1 && !shadowed) then
+        i.1 :: modRefsGo defs used unmangled rest
+      else modRefsGo defs used unmangled rest
+
 def modRefs (g : Graph) (k : Nat) : List Nat :=
   let m := g.mod k
   let imps := staticImports g m.reqs
   let globals := m.defs ++ imps.map fun i => if i.2.2.2 then i.2.2.1 else i.2.1
   let used := m.views ++ m.provs.map (·.name)
-  let unmangled := fun (i : Nat × Name × Name × Bool) => i.2.2.2 && !globals.contains i.2.1
-  let rec go : List (Nat × Name × Name × Bool) → List Nat
-    | [] => []
-    | i :: rest =>
-        -- a use of a name counts for the last define of that name in the unit: an import that the
-        -- module's own define, or a later import, shadows is unused
-        let shadowed := m.defs.contains i.2.1 || rest.any (fun j => j.2.1 == i.2.1 && !unmangled j)
-        if unmangled i || (used.contains i.2.1 && !shadowed) then i.1 :: go rest else go rest
-  go imps
+  modRefsGo m.defs used (fun i => i.2.2.2 && !globals.contains i.2.1) imps
 
 def missingBefore (g : Graph) (inst : List Nat) : List Nat → List Nat → Bool
   | _, [] => false
@@ -297,9 +300,10 @@ deriving Repr, Inhabited, DecidableEq
 
 /-- One evaluation request on the engine, as far as module instantiation is concerned.
 `extraFree` = the program references some other identifier that is not defined.
-`rollbackBoth = false` is the code as it is: a failure inside `compile_raw_program` restores the module
-table but keeps the metadata, a failure in `raw_program_to_executable` restores the metadata but keeps
-the table.  `rollbackBoth = true` is the proposed repair (both failures restore both). -/
+`rollbackBoth = true` is the code as it is (since commit d10f8017): both failure paths restore the
+module table and the metadata.  `rollbackBoth = false` is the code before that commit: a failure inside
+`compile_raw_program` restored the module table but kept the metadata, a failure in
+`raw_program_to_executable` restored the metadata but kept the table. -/
 def evalRequestI (rollbackBoth : Bool) (g : Graph) (st : IM) (specs : List Spec) (mode : Mode)
     (extraFree : Bool := false) : IM × Status × List Nat :=
   let v := visitAll g (specs.map Spec.target) ⟨st.compiled, st.fmeta, []⟩
@@ -351,10 +355,14 @@ structure Export where
   cform : Bool
 deriving Repr, Inhabited, DecidableEq
 
-/-- Switches that repair one defect of the code each (all `false` = the code as it is). -/
+/-- Variants of the mechanism.  The defaults are the code as it is: both failure paths restore the
+module table *and* the metadata (commit d10f8017), `contract/out` imports are mangled under their
+bound name (commit 1587f6f5), require modifiers are flattened.  `rollback := false` and
+`contractImports := false` are the two repaired defects (kept as regression witnesses, corpus d01–d04);
+`compose := true` is what the specification asks of the modifiers (open finding K14c). -/
 structure Fix where
-  rollback : Bool := false          -- both failure paths restore module table *and* metadata
-  contractImports : Bool := false   -- a `contract/out` import is mangled under its bound name
+  rollback : Bool := true           -- both failure paths restore module table *and* metadata
+  contractImports : Bool := true    -- a `contract/out` import is mangled under its bound name
   compose : Bool := false           -- require modifiers are composed instead of flattened
 deriving Repr, Inhabited, DecidableEq
 
